@@ -105,11 +105,11 @@ def ensure_macro():
     return so, _MACRO['deps']
 
 
-def _cargo(d, check_only, deny_warnings):
+def _cargo(d, check_only, deny_warnings, lib=False):
     so, deps = ensure_macro()
     name = os.path.basename(d)
     out = os.path.join(d, name)
-    cmd = ['timeout', '1500', 'rustc', '--edition=2021', '--crate-name', name.replace('-', '_'), '--crate-type', 'bin',
+    cmd = ['timeout', '1500', 'rustc', '--edition=2021', '--crate-name', name.replace('-', '_'), '--crate-type', 'lib' if lib else 'bin',
            '--error-format=json', '--extern', 'derive_ex=' + so, '-L', 'dependency=' + deps,
            '-C', 'debuginfo=0', '-C', 'opt-level=0', '-C', 'codegen-units=4']
     if check_only:
@@ -162,7 +162,7 @@ def compile_batch(name, mods, prelude='', check_only=False, deny_warnings=False,
             for m in live:
                 m.diags = []
             spans = _write_crate(d, name, live, prelude, check_only, crate_attrs)
-            rc, diags, stderr = _cargo(d, check_only, deny_warnings)
+            rc, diags, stderr = _cargo(d, check_only, deny_warnings, lib=bool(crate_attrs and 'no_std' in crate_attrs))
             bad = set()
             unplaced = []
             for msg in diags:
